@@ -121,8 +121,15 @@ func newCompiler(
 	if constsCache == nil {
 		constsCache = make(map[Object]int)
 		for i := range opts.Constants {
-			switch opts.Constants[i].(type) {
-			case Int, Uint, String, Bool, Float, Char, *UndefinedType:
+			switch v := opts.Constants[i].(type) {
+			case Float:
+				if v == 0 && math.Signbit(float64(v)) {
+					// -0.0 is never looked up in the cache (see addConstant)
+					// and must not shadow 0.0, which is the same map key
+					continue
+				}
+				constsCache[v] = i
+			case Int, Uint, String, Bool, Char, *UndefinedType:
 				constsCache[opts.Constants[i]] = i
 			}
 		}
